@@ -45,6 +45,7 @@ var Prop = &engine.Prop{
 	},
 	Kinds: []engine.Kind{
 		{Name: "btree", Quick: 1600, Thorough: 48000, Fn: btreeCase},
+		{Name: "int-keys", Quick: 300, Thorough: 9000, Fn: intKeysCase},
 		{Name: "wrapper", Quick: 1300, Thorough: 39000, Fn: wrapperCase},
 		{Name: "clone", Quick: 700, Thorough: 21000, Fn: cloneCase},
 		{Name: "race-clone", Quick: 200, Thorough: 6000, Repeat: 20, Fn: raceCloneCase},
